@@ -311,6 +311,9 @@ type Program struct {
 	// InjBlankImports / InjRaw: blank imports and raw declarations added to injector file 0.
 	InjBlankImports []string `json:"inj_blank_imports,omitempty"`
 	InjRaw          string   `json:"inj_raw,omitempty"`
+	// AliasImports: the user's files import the program's own packages under an alias that
+	// differs from the package name (al_<name>).
+	AliasImports bool `json:"alias_imports,omitempty"`
 	// RawDriver: an Extra file provides func Scenarios() for pkg 0.
 	RawDriver bool `json:"raw_driver,omitempty"`
 	// RejectOK: rejection with a diagnostic is as acceptable as compilable output.
@@ -355,7 +358,7 @@ func (p *Program) AddSet(s *Set) *Set {
 
 // Clone deep-copies a program (decl pointers are re-linked).
 func (p *Program) Clone() *Program {
-	q := &Program{ID: p.ID, Module: p.Module, Note: p.Note, RejectOK: p.RejectOK, RawDriver: p.RawDriver}
+	q := &Program{ID: p.ID, Module: p.Module, Note: p.Note, RejectOK: p.RejectOK, RawDriver: p.RawDriver, AliasImports: p.AliasImports}
 	for _, k := range p.Pkgs {
 		c := *k
 		q.Pkgs = append(q.Pkgs, &c)
